@@ -78,6 +78,7 @@ type sinkReport struct {
 	target  string // label of the sliced/indexed object
 	origin  string // description of the raw source
 	ok      bool
+	hyp     bool // operand is a parameter no call site feeds with unchecked input
 }
 
 type boundAnalysis struct {
@@ -711,6 +712,11 @@ func (ba *boundAnalysis) analyze(fn *ssa.Function, report bool) bool {
 					continue
 				}
 				if !ri.real() {
+					// only hypothetically input-derived: a parameter that every caller feeds with checked values. Counted
+					// as an examined sink (the rule matched it), decided at the call sites.
+					if emit {
+						ba.reports = append(ba.reports, sinkReport{fn: fn, instr: instr, kind: su.kind, operand: su.operand, target: su.target, origin: "parameter; every call site passes a checked or input-independent value", ok: true, hyp: true})
+					}
 					addBounded(G, su.operand)
 					continue
 				}
